@@ -151,17 +151,19 @@ def h13_currency(vclass, negative_style, thousands, places, accounting, known, n
         assert minus == 0 and paren == 2
 
 
-STUBS = ["sigfig.round replaced by a contract stub: returns digit strings of nondeterministic content (1 or 4 integer digits, "
-         "0 / 2 or the requested number of decimals) with the argument's sign; grouping by three for spacer=','"]
+STUBS = ["sigfig.round replaced by a contract stub: returns digit strings of nondeterministic content (1 or 4 integer digits quick; 1, 3, 4 or 7 thorough; "
+         "0 / 2 (0..2 thorough) or the requested number of decimals) with the argument's sign; grouping by three for spacer=','"]
 OUT = ["that the digits are the value correctly rounded to the displayed precision (sigfig / Decimal internals)",
        "scientific notation, number bases, fractions, custom number patterns (C-level float formatting)"]
 HARNESSES = [
     Harness("H13-decimal", h13_decimal,
-            dict(vclass=Cases(list(VALUES)), negative_style=IntDom(), thousands=BoolDom(), places=IntDom(), percent=BoolDom(), ni=Cases([1, 4]), nf=Cases([0, 2])),
+            lambda tier: dict(vclass=Cases(list(VALUES)), negative_style=IntDom(), thousands=BoolDom(), places=IntDom(), percent=BoolDom(),
+                              ni=Cases([1, 4] if tier == "quick" else [1, 3, 4, 7]), nf=Cases([0, 2] if tier == "quick" else [0, 1, 2])),
             bounds="value sign/integrality classes x 4 negative styles x separator on/off x decimals {auto, 0..3} x percent; digit strings symbolic",
             stubs=STUBS, outside=OUT, patches=[(cellmod, "sigfig", fake_sigfig)]),
     Harness("H13-currency", h13_currency,
-            dict(vclass=Cases(list(VALUES)), negative_style=IntDom(), thousands=BoolDom(), places=IntDom(), accounting=BoolDom(), known=BoolDom(), ni=Cases([1, 4]), nf=Cases([0, 2])),
+            lambda tier: dict(vclass=Cases(list(VALUES)), negative_style=IntDom(), thousands=BoolDom(), places=IntDom(), accounting=BoolDom(),
+                              known=BoolDom(), ni=Cases([1, 4] if tier == "quick" else [1, 3, 4, 7]), nf=Cases([0, 2] if tier == "quick" else [0, 1, 2])),
             bounds="as H13-decimal x accounting layout on/off x known/unknown currency code",
             stubs=STUBS, outside=OUT, patches=[(cellmod, "sigfig", fake_sigfig)]),
 ]
